@@ -88,7 +88,12 @@ type mCase struct {
 	// Nest = k >= 2 (and k < n): the first k children are wrapped in a merge handler of their own,
 	// NewMergeHandler(NewMergeHandler(c0..c(k-1)), ck, ...): judged as the flat handler over the n children is
 	// (first rejecting child in the order c0..c(n-1), maximum count, one reply when the last child has answered)
-	Nest  int     `json:"nest,omitempty"`
+	Nest int `json:"nest,omitempty"`
+	// Block = k > 0 (single session): the steps from k on are child steps; they are not run one at a time: every
+	// child emits its messages (in their order) from a goroutine of its own while the client does not read for
+	// 100 ms; then the client reads until every child's final sentinel has arrived.  Whatever came out is recorded
+	// at the last step.  A client that reads late must still get every reply.
+	Block int     `json:"block,omitempty"`
 	Sess  int     `json:"sessions,omitempty"` // sessions of the one handler value; 0 and 1: a single session
 	Steps []mStep `json:"steps"`
 	Fail  string  `json:"fail,omitempty"` // panic / hang / protocol failure of the run, "" when clean
@@ -310,6 +315,62 @@ func runMerge(c *mCase) {
 		if st.S < 0 || st.S >= nsess {
 			c.Fail = "bad case: session index out of range"
 			return
+		}
+		if c.Block > 0 && k == c.Block && nsess == 1 {
+			per := make([][]mocrelay.ServerMsg, c.N)
+			for j := k; j < len(c.Steps); j++ {
+				b := &c.Steps[j]
+				if b.K != "child" || b.I < 0 || b.I >= c.N || b.M == nil {
+					c.Fail = "bad case: the block must consist of child steps"
+					return
+				}
+				per[b.I] = append(per[b.I], b.M.toServer())
+			}
+			ends := map[mocrelay.ServerMsg]bool{}
+			errs := make(chan string, c.N)
+			for i := range per {
+				if len(per[i]) == 0 {
+					continue
+				}
+				end := mocrelay.ServerMsg(mocrelay.NewServerNoticeMsg(fmt.Sprintf("\x00block end %d", i)))
+				ends[end] = true
+				go func(i int, ms []mocrelay.ServerMsg) {
+					select {
+					case children[i].ports[0].cmd <- ms:
+						errs <- ""
+					case <-time.After(4 * mergeStepTimeout):
+						errs <- fmt.Sprintf("hang: child %d does not take commands", i)
+					}
+				}(i, append(per[i], end))
+			}
+			time.Sleep(100 * time.Millisecond) // the client is busy with something else
+			last := &c.Steps[len(c.Steps)-1]
+			timer := time.NewTimer(4 * mergeStepTimeout)
+			for left := len(ends); left > 0; {
+				select {
+				case m := <-sends[0]:
+					if ends[m] {
+						left--
+					} else {
+						last.Out = append(last.Out, fromServer(m))
+					}
+				case msg := <-dones[0]:
+					c.Fail = "session ended early: " + msg
+					dones[0] <- msg
+					return
+				case <-timer.C:
+					c.Fail = "hang: the replies of the block did not all arrive"
+					return
+				}
+			}
+			timer.Stop()
+			for range ends {
+				if e := <-errs; e != "" {
+					c.Fail = e
+					return
+				}
+			}
+			break
 		}
 		sentinel := mocrelay.ServerMsg(mocrelay.NewServerNoticeMsg(fmt.Sprintf("\x00sentinel %d", k)))
 		if st.K == "child" {
